@@ -131,6 +131,24 @@ class Algo4:
         return bytes(reversed(seed)) + bytes([level & 0xFF, (params or 0) & 0xFF])
 
 
+class _CbOwner:
+    """an application object whose method (or which itself) is the nrc78_callback"""
+
+    def __init__(self, conn):
+        self.conn = conn
+        self.seen = 0
+
+    def pending(self):
+        self.seen += 1
+        self.conn.log.append([4])
+
+    __call__ = pending
+
+
+class _CodecFailure(Exception):
+    """an application codec's own exception class"""
+
+
 class AlgoFailure(RuntimeError, TypeError):
     """what a failing security algorithm raises: an application exception (it happens to be a TypeError as well, as errors raised
     by 'None + bytes' or a missing table entry inside an algorithm are)"""
@@ -200,7 +218,17 @@ def cfg_value(slot, v, conn):
     if slot in (P2, P2S):
         return v / 1e6
     if slot == HAS_CB:
-        return (lambda: conn.log.append([4])) if v == 1 else None
+        if v != 1:
+            return None
+        form = getattr(conn, 'cb_form', 0)      # the callback as a closure / a bound method of an application object / a callable object / a partial
+        if form == 1:
+            return _CbOwner(conn).pending
+        if form == 2:
+            return _CbOwner(conn)
+        if form == 3:
+            import functools
+            return functools.partial(_CbOwner.pending, _CbOwner(conn))
+        return lambda: conn.log.append([4])
     if slot in (SRV_ADDR, SRV_SIZE, EXT_SIZE, ALGO_PRM):
         return None if v < 0 else v
     if slot == ALGO:
@@ -225,9 +253,11 @@ def codec_classes():
                     raise ValueError('value must be %d bytes' % self.n)
                 return v
 
+            refuse = ValueError      # how this codec refuses a payload that is not its length (an application codec may use any class)
+
             def decode(self, b):
                 if len(b) != self.n:
-                    raise ValueError('payload must be %d bytes' % self.n)
+                    raise self.refuse('payload must be %d bytes' % self.n)
                 return b
 
             def __len__(self):
@@ -281,9 +311,12 @@ def did_value(client, did, raw):
     return tuple(raw) if did in getattr(client, '_verif_tuple_dids', ()) else raw
 
 
-def mk_codec(shape):
+def mk_codec(shape, refuse=None):
     RawCodec, RawAll = codec_classes()
-    return RawAll() if shape < 0 else RawCodec(shape)
+    c = RawAll() if shape < 0 else RawCodec(shape)
+    if refuse is not None and shape >= 0:
+        c.refuse = refuse
+    return c
 
 
 def split_cfg(cfgv):
@@ -306,12 +339,13 @@ def split_cfg(cfgv):
     return base, dids, ios
 
 
-def make_client(cfgv, extra_cfg=None):
+def make_client(cfgv, extra_cfg=None, io_refuse=None, cb_form=0):
     import udsoncan.client as uc
     setup()
     clk = VClock()
     uc.time = types.SimpleNamespace(monotonic=clk.monotonic)
     conn = _Conn(clk)
+    conn.cb_form = cb_form
     cfg = {}
     base, dids, ios = split_cfg(cfgv)
     for slot, key in CFG_KEYS.items():
@@ -328,14 +362,14 @@ def make_client(cfgv, extra_cfg=None):
         if k in icfg:
             continue
         if hm or ms >= 0:
-            e = {'codec': mk_codec(sh)}
+            e = {'codec': mk_codec(sh, io_refuse)}
             if hm:
                 e['mask'] = {'m%d' % i: v for i, v in enumerate(masks)}
             if ms >= 0:
                 e['mask_size'] = ms
             icfg[k] = e
         else:
-            icfg[k] = mk_codec(sh)
+            icfg[k] = mk_codec(sh, io_refuse)
     cfg['input_output'] = icfg
     if extra_cfg:
         cfg.update(extra_cfg)
@@ -494,8 +528,12 @@ def run_history_case(c, extra_cfg=None):
     b = list(c.blobs)
     L = a[0]
     cfgv = a[1:1 + L]
-    client, conn, clk = make_client(cfgv, extra_cfg)
     from harness import wrappers
+    # a quarter of the cases each: the codecs of the input_output entries refuse a payload of the wrong length with KeyError / with an
+    # exception class of the application's own (any failure of a codec on a response is an invalid response)
+    io_refuse = None if wrappers.marked(c, 4) else (KeyError if wrappers.marked(c, 5) else _CodecFailure)
+    import zlib
+    client, conn, clk = make_client(cfgv, extra_cfg, io_refuse, (zlib.crc32(c.line().encode()) >> 6) & 3)
     client._verif_wrappers = wrappers.marked(c)      # half of the cases go through the convenience methods where one fits
     conn.silence_none = wrappers.marked(c, 1)        # half of the cases (independently) run on a transport that returns None on silence
     client._verif_objects = wrappers.marked(c, 2)    # half of the cases hand helper objects (Dtc, Dtc.Status, Dtc.DtcClass) where an integer is also allowed
@@ -584,7 +622,10 @@ def run_history_case(c, extra_cfg=None):
         elif opc == 5:
             slot, v = a[pos + 1], a[pos + 2]
             try:
-                client.set_config(CFG_KEYS[slot], cfg_value(slot, v, conn))
+                if wrappers.marked(c, 8):      # half of the cases write the entry through set_configs (the several-entries form)
+                    client.set_configs({CFG_KEYS[slot]: cfg_value(slot, v, conn)})
+                else:
+                    client.set_config(CFG_KEYS[slot], cfg_value(slot, v, conn))
             except Exception as e:
                 out += [2, err_code(e)]
             pos += 3
